@@ -69,6 +69,12 @@ def pattern_set(level='quick', rootname='r'):
         for b in core3:
             for c in core3:
                 add(build([a, b, c], SEGS_FULL))
+    # two globstar groups separated by literal / wildcard segments (the link check has to restart per group)
+    for names in (['**', 'a', '**', 'a'], ['**', 'a', '**', '*'], ['**', 'b', '**', 'a'], ['*', '**', 'a', '**'], ['a', '**', 'a', '**'],
+                  ['**', '*', '**', 'a'], ['**', 'a', '*', '**'], ['***', 'a', '**', 'a'], ['**', 'a', '***', 'a'], ['**', 'b', '**'],
+                  ['b', '**', 'b', '**'], ['**', 'a', '**', 'b', '**']):
+        add(build(names, SEGS_FULL))
+    add(build(['**', 'a', '**'], SEGS_FULL, trailing=True))
     # spelling variants: leading ./ , ../<root>/ , duplicate separators
     base = ['a', '*', '**', 'a/*', '*/a', '**/a', 'a/**', '.h', '*/']
     for a in ['a', '*', '**', '.h', '?', '.*', '@(a|b)']:
